@@ -325,7 +325,7 @@ def _returned_weight_terms(f, xname):
 
 
 CLAIM = {
-    "text": "Decides (a) that the three implementations of the expected shrinkage (incremental integrator, live-point volumes, one-pass weights) canonicalise, per mode, to the documented -1/n and -log1p(1/n), that the final live-count schedules denote nlive..1 in all three places, that both the incremental and the one-pass code build the same closed trapezoid (L ++ [L[-1]], X ++ [-inf], X0 = 0, L0 = -inf) and the rectangle weights L_i + log(X_{i-1}-X_i) - log Z, and that the trapezoid / logsubexp / rectangle-update expressions equal the documented forms as order-insensitive linear forms over canonical atoms; (b) by shift-degree type checking of every expression (~300) of the integrator and weight functions, that log Z has degree 1, volumes and weights degree 0, every store respects its field's degree, logaddexp/comparisons only combine equal degrees and no exp/log/log1p ever sees a value that moves with a likelihood offset - which is the exact-arithmetic offset clause and the necessary condition for the no-overflow clause. Values handed out by a property are modified in place (effective_n_posterior_samples normalises the weights in place) only because every getter of that name returns a fresh object on all paths (R-ALIAS). The expectation option is compared under one normalisation everywhere it is interpreted (C02.1: stored lower-cased if compared as stored; never both `.lower()`-ed and raw inside one function, helpers inlined). Quotients of live counts are true divisions or carry a float dtype (C02.8: np.reciprocal / floor division of the integer schedule the integrator holds would zero every shrinkage).",
+    "text": "Decides (a) that the three implementations of the expected shrinkage (incremental integrator, live-point volumes, one-pass weights) canonicalise, per mode, to the documented -1/n and -log1p(1/n), that the final live-count schedules denote nlive..1 in all three places, that both the incremental and the one-pass code build the same closed trapezoid (L ++ [L[-1]], X ++ [-inf], X0 = 0, L0 = -inf) and the rectangle weights L_i + log(X_{i-1}-X_i) - log Z, and that the trapezoid / logsubexp / rectangle-update expressions equal the documented forms as order-insensitive linear forms over canonical atoms; (b) by shift-degree type checking of every expression (~300) of the integrator and weight functions, that log Z has degree 1, volumes and weights degree 0, every store respects its field's degree, logaddexp/comparisons only combine equal degrees and no exp/log/log1p ever sees a value that moves with a likelihood offset - which is the exact-arithmetic offset clause and the necessary condition for the no-overflow clause. Values handed out by a property are modified in place (effective_n_posterior_samples normalises the weights in place) only because every getter of that name returns a fresh object on all paths (R-ALIAS). The expectation option is compared under one normalisation everywhere it is interpreted (C02.1: stored lower-cased if compared as stored; never both `.lower()`-ed and raw inside one function, helpers inlined). Quotients of live counts are true divisions or carry a float dtype (C02.8: np.reciprocal / floor division of the integer schedule the integrator holds would zero every shrinkage). A path of increment taken only for logL == -inf may leave the evidence unchanged (logaddexp(Z, -inf) == Z) but must still shrink and record the volume.",
     "note": "Syntactic algebra and abstract interpretation only: agreement with an arbitrary-precision evaluation to floating-point accuracy, precision at extreme dynamic range and tie/-inf behaviour are not decided. The information estimate is typed TOP (its invariance rests on two coefficients summing to one) and is checked not to flow into the obligations.",
 }
 
